@@ -20,7 +20,11 @@ package main
 // those chains run on the pool (or, inside Connection, on the pinned connection), never on the ended transaction.
 // Tie "txmidtie": the ConnPool identity and the deep reflection snapshot of the statements of c, h0 and root are the same
 // before and after the block.
-// Latitudes: none.  Not generated: db.Connection called ON a chain in progress (Connection documents no derived handle),
+// For conn receivers the replay has neither the block nor the Connection: the chain on the pinned connection equals the
+// same chain built from the handle on the pool.  Blocks conn* (only on handles): Connection(func) itself, with a nested
+// Transaction / Begin, returning nil or an error.
+// Latitudes: none.  Not generated: db.Connection called ON a chain in progress (Connection documents no derived handle: the
+// block's tx is that chain, unchanged gorm leaves the closed *sql.Conn in it),
 // blocks on chains derived from a transaction handle (SavePoint path executes on the receiver), writes inside a block that
 // commits (the replay would see other data).
 
@@ -54,7 +58,7 @@ type c06yHist struct {
 
 var c06yRecvs = []string{"chain", "chain", "chain", "conn", "conn", "finres"}
 var c06yBlocks = []string{"begin-commit", "begin-rollback", "begin-write-rollback", "begin-twice", "begin-opts", "begin-abandon-rollback",
-	"tx-nil", "tx-err", "tx-write-err", "tx-panic", "tx-nested", "tx-nested-err", "tx-twice"}
+	"tx-nil", "tx-err", "tx-write-err", "tx-panic", "tx-nested", "tx-nested-err", "tx-twice", "conn", "conn-err", "conn-tx", "conn-begin"}
 var c06yD0s = []string{"session", "ctx", "debug", "skiphooks", "qf", "sessctx", "prep", "sdt"}
 
 var c06yErr = errors.New("c06y: block refused")
@@ -155,6 +159,24 @@ func c06yBlock(recv *gorm.DB, h c06yHist, table string) {
 	case "tx-twice":
 		recv.Transaction(func(tx *gorm.DB) error { c06yBody(tx, h, table, true); return c06yErr })
 		recv.Transaction(func(tx *gorm.DB) error { c06yBody(tx, h, table, false); return nil })
+	case "conn", "conn-err": // only on handles: Connection documents no derived handle, the block's tx IS a chain in progress
+		recv.Connection(func(cx *gorm.DB) error {
+			c06yBody(cx, h, table, false)
+			if h.Block == "conn-err" {
+				return c06yErr
+			}
+			return nil
+		})
+	case "conn-tx":
+		recv.Connection(func(cx *gorm.DB) error {
+			return cx.Transaction(func(tx *gorm.DB) error { c06yBody(tx, h, table, true); return c06yErr })
+		})
+	case "conn-begin":
+		recv.Connection(func(cx *gorm.DB) error {
+			tx := cx.Begin()
+			c06yBody(tx, h, table, false)
+			return tx.Commit().Error
+		})
 	default:
 		panic("c06y: unknown block " + h.Block)
 	}
@@ -221,9 +243,9 @@ func c06yExec(w *c06aWorld, h c06yHist, block bool) (obs map[string]string, tie 
 		}
 	}
 	// the part of the history around the receiver; uses of c run where c lives (inside Connection for conn receivers)
+	take("root", root)
+	take("h0", h0)
 	around := func(c *gorm.DB, finished bool) {
-		take("root", root)
-		take("h0", h0)
 		take("c", c)
 		if block {
 			c06yBlock(c, h, table)
@@ -245,6 +267,11 @@ func c06yExec(w *c06aWorld, h c06yHist, block bool) (obs map[string]string, tie 
 	}
 	switch h.Recv {
 	case "conn":
+		if !block { // the replay: neither the block nor the pinned connection ever happen
+			around(build(h0, h.C), false)
+			obs["conn"] = ""
+			break
+		}
 		err := h0.Connection(func(conn *gorm.DB) error {
 			around(build(conn, h.C), false)
 			return nil
@@ -284,7 +311,17 @@ func c06yExec(w *c06aWorld, h c06yHist, block bool) (obs map[string]string, tie 
 			}
 		}
 	}
-	return obs, tie, detail
+	snaps = snaps[:2] // root and h0 once more after everything (c was finished; a pinned handle ended with its connection)
+	compare()
+	seen := map[string]bool{}
+	var uniq []string
+	for _, t := range tie {
+		if !seen[t] {
+			seen[t] = true
+			uniq = append(uniq, t)
+		}
+	}
+	return obs, uniq, detail
 }
 
 type c06yVerdict struct {
@@ -377,6 +414,9 @@ func c06yGenerate(rng *rand.Rand) c06yHist {
 	}
 	if rng.Intn(8) != 0 {
 		h.C = c06mGenOps(rng, 1+rng.Intn(3), rng.Intn(3) == 0)
+	}
+	if strings.HasPrefix(h.Block, "conn") {
+		h.Recv, h.C = "chain", nil
 	}
 	h.In = c06mGenOps(rng, rng.Intn(3), false)
 	h.S = c06mGenOps(rng, 1+rng.Intn(2), false)
